@@ -148,7 +148,9 @@ theorem exec_step (s : Sys) (t : Nat) (op : Op) (hop : op.isCollectorOp = false)
     simp only [exec]
     split
     · exact Step.refl s
-    · exact Step.newSpan s t v n _ none
+    · split
+      · exact Step.withSpans _
+      · exact Step.newSpan s t v n _ none
   | childLocal v n =>
     simp only [exec]
     cases (s.th t).stack.currentToken with
